@@ -524,10 +524,21 @@ fn eval_script(toks: &[Tok], env: &Env, legs: Legs, acc: &mut Acc, case: &Case) 
     let script = match guard(|| Script::from_bytes(&bytes)) {
         Ok(Ok(s)) => s,
         Ok(Err(_)) => {
-            // premise of the property (a script the library holds) not met: C02's business
-            acc.bump("premise_script_rejected_by_from_bytes", 1);
-            acc.outcome(b"premise-reject");
-            return;
+            // The byte parser refuses the string. Whether it should is C02's business; but a script is also what the
+            // construction API holds, so when the reference nester can build the element tree and the library
+            // serialises that tree to these very bytes, the text legs run on the constructed script.
+            let built = super::libx::nest_tokens(toks, &env.openers).and_then(|bits| guard(|| Script::from_script_bits(bits)).ok());
+            match built {
+                Some(s) if guard(|| s.to_bytes()).ok().as_deref() == Some(&bytes[..]) => {
+                    acc.bump("script_built_from_elements_because_from_bytes_rejects", 1);
+                    s
+                }
+                _ => {
+                    acc.bump("premise_script_rejected_by_from_bytes", 1);
+                    acc.outcome(b"premise-reject");
+                    return;
+                }
+            }
         }
         Err(p) => {
             found.add(acc, &format!("C17/from_bytes/kind=panic@{}", panic_site(&p)), || p.clone());
